@@ -119,6 +119,9 @@ def step (s : ItsS) (t : List String) (implObs : String) : ItsS × StepOut :=
     | some a, some n, some sy, some d =>
       (putTok s a { sacTok n sy with kind := .custom, decimals := d }, ⟨"ok", "ok", none⟩)
     | _, _, _, _ => bad s "ctok.new"
+  | ["ctok.shifty", _, _, _, _] =>
+    -- the token starts giving OTHER answers on re-reading; the token the model knows is what a first read returns
+    (s, ⟨"ok", "ok", none⟩)
   | ["recv.new", a] =>
     match parseAddr a, s.st with
     | some a, some st => ({ s with st := some { st with executable := fun x => x = a || st.executable x } }, ⟨"ok", "ok", none⟩)
@@ -235,6 +238,12 @@ def step (s : ItsS) (t : List String) (implObs : String) : ItsS × StepOut :=
         match parseAddr n, parseTreeAuth au with
         | some n, some au => finEv s (transferOwnership st (au.toList [st.owner]) n)
         | _, _ => bad s op
+      | "its.upgrade_migrate", [auth] =>
+        -- upgrade to the same code + migration of the current tree: owner only, and the identity on everything modelled
+        if auth = "@" then (s, ⟨"ok", "ok", none⟩) else
+        match parseTreeAuth auth with
+        | some au => if st.owner ∈ au.toList [st.owner] then (s, ⟨"ok", "ok", none⟩) else (s, ⟨"err", "unauthorized", none⟩)
+        | none => bad s op
       | "its.owner", [] => (s, ⟨"ok " ++ addrTok st.owner, "ok", none⟩)
       | "its.is_trusted", [c] =>
         match ofHex c with
